@@ -116,4 +116,9 @@ theorem C12_header_entry_determined (k : String) (vs‚ÇÅ vs‚ÇÇ : List String) (h‚
 example : canonRSA ["Content-Type", "Cookie"] [("Content-Type", ["a/b", ""]), ("Cookie", ["x=1;y=2"])] "/p" "q=1" "" "body"
     = "a/b\nx=1;y=2\n/p?q=1\nbody" := by decide
 
+/-- Tie (T1): `mapRequestToHashInput` reads the body once (`ReadAll`) into a buffer of its own and hands the request a
+reader over it (`NewBuffer`, `NopCloser`, `store:req.Body`) ‚Äî no pooled or shared storage between requests. -/
+theorem C12_skeleton_mapRequestToHashInput : Sso.Generated.skel_proxy_mapRequestToHashInput =
+    ["range{", "call:removeEmpty", "call:len", "if{", "call:Join", "call:append", "}", "}", "func{", "call:len", "if{", "}", "call:len", "if{", "}", "return", "}", "call:funclit", "call:append", "if{", "call:ReadAll", "call:NewBuffer", "call:NopCloser", "store:req.Body", "call:string", "call:append", "}", "call:Join", "return"] := by decide
+
 end Sso.Forward
